@@ -41,6 +41,7 @@ class CFG:
         self.succ = defaultdict(set)
         self.pred = defaultdict(set)
         self.edge_label = {}           # (a, b) -> 'T' | 'F' | 'exc' | ''
+        self.if_of = {}                # test node id -> ast.If
         self.entry = self._new("entry")
         self.exit_return = self._new("exit_return")
         self.exit_raise = self._new("exit_raise")
@@ -93,14 +94,13 @@ class CFG:
         if isinstance(st, ast.If):
             t = self._new("test", st.test, "if")
             self.node_of[st] = t
+            self.if_of[t.id] = st
             self._link(preds, t, labels)
             self._in_try(t)
             tb = self._seq(st.body, {t.id}, {t.id: "T"})
             if st.orelse:
                 fb = self._seq(st.orelse, {t.id}, {t.id: "F"})
                 return tb | fb
-            # false edge falls through: remember label on the eventual edge
-            self._pending_false = getattr(self, "_pending_false", set())
             return tb | {t.id}
         if isinstance(st, (ast.For, ast.AsyncFor)):
             h = self._new("loop", st, "for")
